@@ -3,6 +3,7 @@
 Two-party protocol simulation: real JSON handler + protocol + APDU layer + real
 ledgerblue HID framing against the policy-driven Signer model; the device-side
 reassembly oracle lives in the model (incremental), the reply oracle here."""
+import copy
 import struct
 import sys
 
@@ -172,6 +173,25 @@ def run_one(ch, cfg):
 
 def _one_request(w, ch, cfg, v1, viol):
     req, exp, info = gen_request(ch, cfg, v1)
+    # related requests within one lifetime (the inputs of one pegout are signed one after the other,
+    # a client retries with a rebuilt proof): a later request may share its receipt, its proof or its
+    # transaction with the previous authorized one - and must still be relayed on its own terms
+    prev = getattr(w, "prev_auth", None)
+    if prev is not None and "auth" in req and ch.draw(2, "related-to-previous") == 1:
+        preq, pexp = prev
+        share = ch.draw(4, "related.share")
+        if share in (0, 3):
+            req["auth"]["receipt"] = preq["auth"]["receipt"]
+            exp["receipt"] = pexp["receipt"]
+        if share in (1, 3):
+            req["auth"]["receipt_merkle_proof"] = list(preq["auth"]["receipt_merkle_proof"])
+            exp["merkle"] = pexp["merkle"]
+        if share == 2:
+            req["message"] = copy.deepcopy(preq["message"])
+            exp["tx"] = pexp["tx"]
+            exp["path"] = exp["path"][:-4] + pexp["path"][-4:]
+    if "auth" in req:
+        w.prev_auth = (copy.deepcopy(req), dict(exp))
     der, shape, r_hex, s_hex = gen_der(ch)
     exp["der"] = der
     dev = w.device
